@@ -336,6 +336,29 @@ Section Mat.
   Definition set_from (dst src : ustr) (wrap : ustr -> ustr) (r : row) : result row :=
     match rget src r with Some v => Ok (rset dst (wrap v) r) | None => Err EKey end.
 
+  (* the end of _materialize_rml_rule, row by row: data['triple'] = subject + ' ' + predicate + ' ' + object; the graph term
+     (outermost level, N-QUADS only); the term columns are dropped *)
+  Definition finish_row (nest : nat) (rl : rule) (r : row) : result (list row) :=
+    match rget col_subject r, rget col_predicate r, rget col_object r with
+    | Some s, Some p, Some o =>
+        let r1 := rset col_triple (s ++ [32] ++ p ++ [32] ++ o) r in
+        rdo gs <-
+          (if (Nat.eqb nest 0) && c_nquads cfg then
+             rdo g <- (if is_plain (r_gk rl) && negb (ueqb (r_gv rl) Tables.c_rml_default_graph)
+                       then rdo r2 <- mat_template cfg (r_gv rl) (r_gk rl) col_graph [] TIri [] r1; Ok [r2]
+                       else match r_gk rl with
+                            | KExec => mat_exec cfg fe (r_gv rl) col_graph TIri [] r1
+                            | _ => Ok [rset col_graph [] r1]
+                            end);
+             rmap_all (fun r2 => match rget col_triple r2, rget col_graph r2 with
+                                 | Some t, Some gr => Ok (rset col_triple (t ++ [32] ++ gr) r2)
+                                 | _, _ => Err EKey
+                                 end) g
+           else Ok [r1]);
+        Ok (map (fun r3 => rdrop col_object (rdrop col_predicate (rdrop col_subject r3))) gs)
+    | _, _, _ => Err EKey
+    end.
+
   Fixpoint mat_rule (fuel : nat) (rl : rule) (data : option frame) (pjrefs : list ustr) (nest : nat) : result frame :=
     match fuel with
     | O => Err EFuel
@@ -404,25 +427,7 @@ Section Mat.
            else
              rdo d <- obtain [];
              rflat_rows (mat_terms cfg fe rl []) d);
-        (* data['triple'] = subject + ' ' + predicate + ' ' + object *)
-        rdo t1 <- rmap_rows (fun r => match rget col_subject r, rget col_predicate r, rget col_object r with
-                                      | Some s, Some p, Some o => Ok (rset col_triple (s ++ [32] ++ p ++ [32] ++ o) r)
-                                      | _, _, _ => Err EKey
-                                      end) terms;
-        rdo t2 <-
-          (if (Nat.eqb nest 0) && c_nquads cfg then
-             rdo g <- (if is_plain (r_gk rl) && negb (ueqb (r_gv rl) Tables.c_rml_default_graph)
-                       then rmap_rows (mat_template cfg (r_gv rl) (r_gk rl) col_graph [] TIri []) t1
-                       else match r_gk rl with
-                            | KExec => rflat_rows (mat_exec cfg fe (r_gv rl) col_graph TIri []) t1
-                            | _ => Ok (map (rset col_graph []) t1)
-                            end);
-             rmap_rows (fun r => match rget col_triple r, rget col_graph r with
-                                 | Some t, Some gr => Ok (rset col_triple (t ++ [32] ++ gr) r)
-                                 | _, _ => Err EKey
-                                 end) g
-           else Ok t1);
-        Ok (map (fun r => rdrop col_object (rdrop col_predicate (rdrop col_subject r))) t2)
+        rflat_rows (finish_row nest rl) terms
     end.
 
   Definition rule_fuel := S (S (length rules)).
